@@ -306,6 +306,13 @@ func TestKnownFindingWitnesses(t *testing.T) {
 
 // replayOne re-runs every level of the check on one saved case.
 func replayOne(t fataler, c replayCase) {
+	if c.Kind == "ks-states" {
+		if c.Script == nil {
+			t.Fatalf("ks-states replay case without script")
+		}
+		replayStates(t, c.Script)
+		return
+	}
 	sc, err := hex.DecodeString(c.Scalar)
 	if err != nil || len(sc) == 0 {
 		t.Fatalf("replay case without scalar")
